@@ -29,7 +29,7 @@ RULE = ("cases are dataclass modules rendered from the layout grammar: per class
         "(int/str/float/bool/Optional, leading required fields), texts with everyday punctuation (':', quotes, '=', '#', "
         "`name: type` words) in inline comments / comments above / one-line docstrings, trailing comments on the class / "
         "decorator line, a trailing method, inheritance chains of length 2-3 that override / re-declare fields or document "
-        "an inherited field only in the subclass docstring, a make_dataclass base without source, default values that are "
+        "an inherited field only in the subclass docstring, field-less classes (docstring-only / `pass` body) as leaf and middle link that document inherited fields, a make_dataclass base without source, default values that are "
         "string literals containing '#', synthetic definition lines for the inline-comment extraction. Histories: the "
         "classes of a chain (plus an unrelated class declaring the same field names) are looked up in ONE process in "
         "several orders through get_attribute_docstring and through the parser's help; every answer must be the documented "
@@ -201,6 +201,34 @@ def clsdoc_inherited_case(rng):
     b2 = mk_block(rng, mk, "x", rand_positions(rng) - {"cls"})
     c1 = mk_class(rng, mk, "C1", "C0", [b2], ["a"])
     return {"stream": "clsdoc_inherited", "classes": [c0, c1], "target": "C1"}
+
+
+def fieldless_case(rng):
+    """chains with FIELD-LESS classes (body = class docstring only, or `pass`) as middle link and / or leaf, whose class
+    docstring documents inherited fields; expected: nearest provider per kind"""
+    mk = Mk()
+    names = rng.sample(["a", "ab", "val", "value", "x", "lr"], rng.choice([2, 3]))
+    subs = [rand_positions(rng) for _ in names]
+    c0 = mk_class(rng, mk, "C0", None, [mk_block(rng, mk, n, s - {"cls"}) for n, s in zip(names, subs)],
+                  [n for n, s in zip(names, subs) if "cls" in s])
+    classes = [c0]
+    shape = rng.choice(["leaf", "middle", "middle+leaf", "two-middle"])
+    depth = {"leaf": 1, "middle": 2, "middle+leaf": 2, "two-middle": 3}[shape]
+    for d in range(1, depth + 1):
+        fieldless = not (shape in ("middle", "two-middle") and d == depth)
+        if fieldless:
+            ents = [n for n in names if rng.random() < 0.6] or [names[0]]
+            if rng.random() < 0.15:
+                ents = []                                 # body is just `pass` (or a summary-only docstring)
+            c = mk_class(rng, mk, f"C{d}", f"C{d-1}", [], ents, summary=rng.random() < 0.5)
+        else:
+            own = [n for n in ["y", "z_own"] if rng.random() < 0.7] or ["y"]
+            redecl = [n for n in names if rng.random() < 0.3]
+            bl = [mk_block(rng, mk, n, rand_positions(rng) - {"cls"}) for n in own + redecl]
+            c = mk_class(rng, mk, f"C{d}", f"C{d-1}", bl, [n for n in names if rng.random() < 0.3])
+        classes.append(c)
+    return {"stream": "fieldless", "shape": shape, "classes": classes,
+            "target": f"C{depth}" if rng.random() < 0.7 else f"C{rng.randrange(1, depth + 1)}"}
 
 
 def header_comment_case(rng):
@@ -459,6 +487,8 @@ def gen(rng, tier):
         specs.append(multiline_case(rng))
     for _ in range(10 if quick else 100):
         specs.append(multiline_hash_case(rng))
+    fieldless = [fieldless_case(rng) for _ in range(40 if quick else 400)]
+    specs += fieldless
     for _ in range(20 if quick else 300):
         specs.append(clsdoc_inherited_case(rng))
         specs.append(header_comment_case(rng))
@@ -472,6 +502,12 @@ def gen(rng, tier):
     for _ in range(60 if quick else 400):
         for spec in history_cases(rng):
             yield {"op": "doc.history", "case": spec}
+    for spec in fieldless[: (15 if quick else 100)]:
+        chain = [c["name"] for c in spec["classes"]]
+        kind = rng.choice(["scan", "help"])
+        order = rng.choice([list(reversed(chain)), chain, list(reversed(chain)) + chain])
+        yield {"op": "doc.history", "case": dict(spec, stream="history", order="fieldless-chain", target=chain[-1],
+                                                  queries=[[n, kind] for n in order])}
     # (d'') streams of the open findings
     for _ in range(3 if quick else 20):
         for f in (finding_classdoc_escape, finding_docstring_colon, finding_multiline_header, finding_method_local,
@@ -580,6 +616,8 @@ def render_class(c):
             out.append(f"{IND}{q}")
         else:
             out.append(f'{IND}{q}{cd["summary"]}{esc}{q}')
+    if not cd and not c["blocks"] and not c.get("trailer"):
+        out.append(f"{IND}pass")
     out += [""] * c["hdr_gap"]
     n_header = len(out)
     for b in c["blocks"]:
@@ -1078,6 +1116,9 @@ def tags(case, obs):
             t.append("prefix-pair-adjacent")
         if c.get("dynamic"):
             t.append("no-source-class")
+        if not c["blocks"]:
+            t.append("fieldless-class:" + ("leaf" if c["name"] == spec["classes"][-1]["name"] else "middle")
+                     + (":entries" if c["clsdoc"] and c["clsdoc"]["entries"] else ":no-entries"))
         if c.get("trailer"):
             t.append("trailing-method")
         for b in c["blocks"]:
